@@ -45,6 +45,12 @@ PAIRS = {
     "aoh_grow": (lambda a, b, c, d: (cmap(("w", cseq(cmap(("id", 1), ("v", a))))),
                                      cmap(("w", cseq(cmap(("id", 1), ("v", b)), cmap(("id", 3), ("v", c)))))),
                  "AoH with an added record"),
+    "aoh_ids": (lambda a, b, c, d: (cmap(("w", cseq(cmap(("id", a), ("v", 1)), cmap(("id", b), ("v", 2))))),
+                                    cmap(("w", cseq(cmap(("id", b), ("v", 2)), cmap(("id", a), ("v", c)))))),
+                "AoH with symbolic identity keys (0 and equal keys reachable), reordered"),
+    "aoh_same": (lambda a, b, c, d: (cmap(("w", cseq(cmap(("id", a), ("v", b)), cmap(("id", c), ("v", d))))),
+                                     cmap(("w", cseq(cmap(("id", a), ("v", b)), cmap(("id", c), ("v", d)))))),
+                 "AoH against an equal copy, symbolic identity keys"),
     "same": (lambda a, b, c, d: (cmap(("k", a), ("l", cseq(b, None, cmap(("p", c)))), ("e", cseq()), ("f", cmap())),
                                  cmap(("k", a), ("l", cseq(b, None, cmap(("p", c)))), ("e", cseq()), ("f", cmap()))),
              "a document against an equal copy (nulls, empty containers)"),
@@ -130,6 +136,10 @@ def diff_ok(pair: str, amode: int, omode: int, a: int, b: int, c: int, d: int) -
     """Entries are truthful (positional), complete, and non-SAME entries exist iff the data differ."""
     lhs, rhs = PAIRS[pair][0](a, b, c, d)
     pl, pr = to_plain(lhs), to_plain(rhs)
+    if omode in (3, 4) and pair == "aoh_ids" and a == b:
+        return True        # identity keys must identify: duplicate keys make key-synchronisation ill-defined
+    if omode in (3, 4) and pair == "aoh_same" and a == c:
+        return True
     args = SimpleNamespace(config=None, arrays=ARRAY_MODES[amode], aoh=AOH_MODES[omode])
     differ = Differ(DifferConfig(LOG, args), LOG, lhs)
     differ.compare_to(rhs)
@@ -194,7 +204,7 @@ def shards(tier, seed):
     out = []
     leaves = "-2 <= a <= 2 and -2 <= b <= 2 and -2 <= c <= 2 and -2 <= d <= 2"
     names = list(PAIRS) if tier == "thorough" else ["edit", "keys", "nulls", "null_tail", "shrink", "root_shrink", "clash",
-                                                    "reorder", "aoh", "same"]
+                                                    "reorder", "aoh", "aoh_ids", "aoh_same", "same"]
     for name in names:
         is_aoh = name.startswith("aoh")
         combos = []
